@@ -557,7 +557,8 @@ func genCase(rt *rapid.T) *Case {
 	o.BadFuncPct = 1
 	w := gen.GenWorld(rt, 4, o.Val)
 	if len(w.Req.Context.Fields) < 2 || rapid.IntRange(0, 2).Draw(rt, "morectx") == 0 {
-		w.Req.Context = ir.Rec(ir.F("a", ir.Long(int64(rapid.IntRange(0, 2).Draw(rt, "ca")))), ir.F("k", w.Req.Principal), ir.F("x", ir.Rec(ir.F("a", ir.Long(1)), ir.F("b", w.Req.Resource))), ir.F("b", ir.Set(ir.Long(1), ir.Long(2))))
+		w.Req.Context = ir.Rec(ir.F("a", ir.Long(int64(rapid.IntRange(0, 2).Draw(rt, "ca")))), ir.F("k", w.Req.Principal), ir.F("x", ir.Rec(ir.F("a", ir.Long(1)), ir.F("b", w.Req.Resource))), ir.F("b", ir.Set(ir.Long(1), ir.Long(2))),
+			ir.F("g", ir.Set(w.Req.Resource, w.Req.Principal)))
 	}
 	c := &Case{Store: w.Store, Template: w.Req}
 	np := rapid.IntRange(1, 6).Draw(rt, "npol")
@@ -576,6 +577,11 @@ func genCase(rt *rapid.T) *Case {
 				ir.Bin(ir.OpOr, ir.Bin(ir.OpAnd, ir.Lit(ir.Bool(false)), bad), ir.Bin(ir.OpEq, ir.Var("principal"), ir.Access(ir.Var("context"), "k"))),
 				ir.Bin(ir.OpEq, ir.Var("principal"), ir.Var("resource")),
 				ir.Bin(ir.OpEq, ir.Access(ir.Access(ir.Var("context"), "x"), "b"), ir.Var("resource")),
+				// membership tests against a set *value* of the context (which may hold a variable)
+				ir.IsIn(ir.Var("principal"), w.Req.Principal.T, ir.Access(ir.Var("context"), "g")),
+				ir.Un(ir.OpNot, ir.IsIn(ir.Var("resource"), w.Req.Resource.T, ir.Access(ir.Var("context"), "g"))),
+				ir.Bin(ir.OpIn, ir.Var("principal"), ir.Access(ir.Var("context"), "g")),
+				ir.Bin(ir.OpContains, ir.Access(ir.Var("context"), "g"), ir.Var("resource")),
 			}).Draw(rt, "extra")
 			p.Conds = append(p.Conds, ir.Cond{When: rapid.Bool().Draw(rt, "ew"), Body: extra})
 		}
@@ -696,6 +702,74 @@ func TestFaultPositions(t *testing.T) {
 			}
 		}
 	})
+}
+
+// TestMembershipTemplates: a variable principal / resource tested for membership in a context value that itself holds a
+// variable (set member, record field), for every membership operator, effect and when/unless.
+func TestMembershipTemplates(t *testing.T) {
+	if !ev.First() {
+		return
+	}
+	n := 0
+	fail := func(sub, msg string) {
+		n++
+		if n <= 10 {
+			t.Errorf("C05/%s: %s", sub, msg)
+		}
+	}
+	store := ir.Store{
+		{UID: ir.Ent("T0", "alice"), Parents: []ir.Value{ir.Ent("T1", "admins")}},
+		{UID: ir.Ent("T0", "bob"), Parents: []ir.Value{ir.Ent("T1", "staff")}},
+		{UID: ir.Ent("T1", "admins"), Parents: []ir.Value{ir.Ent("T1", "all")}},
+		{UID: ir.Ent("T1", "staff"), Parents: []ir.Value{ir.Ent("T1", "all")}},
+		{UID: ir.Ent("T1", "all")},
+	}
+	P, R, C := ir.Var("principal"), ir.Var("resource"), ir.Var("context")
+	conds := []*ir.Expr{
+		ir.IsIn(P, "T0", ir.Access(C, "groups")),
+		ir.IsIn(P, "T1", ir.Access(C, "groups")),
+		ir.Un(ir.OpNot, ir.IsIn(P, "T0", ir.Access(C, "groups"))),
+		ir.Bin(ir.OpIn, P, ir.Access(C, "groups")),
+		ir.IsIn(P, "T0", ir.Access(ir.Access(C, "rec"), "g")),
+		ir.Bin(ir.OpIn, P, ir.Access(ir.Access(C, "rec"), "g")),
+		ir.Bin(ir.OpContains, ir.Access(C, "groups"), R),
+		ir.Bin(ir.OpContainsAny, ir.Access(C, "groups"), ir.SetE(R, ir.Lit(ir.Ent("T1", "staff")))),
+		ir.Bin(ir.OpEq, ir.Access(C, "groups"), ir.SetE(ir.Lit(ir.Ent("T1", "admins")), ir.Lit(ir.Ent("T0", "nobody")))),
+		ir.IsIn(P, "T0", ir.SetE(ir.Access(ir.Access(C, "rec"), "g"), R)),
+	}
+	pvals := []ir.Value{ir.Ent("T0", "alice"), ir.Ent("T0", "bob"), ir.Ent("T1", "staff")}
+	gvals := []ir.Value{ir.Ent("T1", "admins"), ir.Ent("T1", "staff"), ir.Ent("T0", "zz")}
+	count := 0
+	for _, cond := range conds {
+		for _, permit := range []bool{true, false} {
+			for _, when := range []bool{true, false} {
+				for mask := 1; mask < 8; mask++ { // which of principal / resource / g are variables
+					p := ir.NewPolicy(permit)
+					p.Conds = []ir.Cond{{When: when, Body: cond}}
+					other := ir.NewPolicy(true)
+					c := &Case{IDs: []string{"p", "base"}, Policies: []*ir.Policy{p, other}, Store: store}
+					pr, rs, g := ir.Ent("T0", "alice"), ir.Ent("T1", "admins"), ir.Ent("T1", "admins")
+					if mask&1 != 0 {
+						pr = mkVar("p")
+						c.Vars = append(c.Vars, VarList{"p", pvals})
+					}
+					if mask&2 != 0 {
+						rs = mkVar("r")
+						c.Vars = append(c.Vars, VarList{"r", gvals[:2]})
+					}
+					if mask&4 != 0 {
+						g = mkVar("g")
+						c.Vars = append(c.Vars, VarList{"g", gvals})
+					}
+					c.Template = ir.Request{Principal: pr, Action: ir.Ent("Action", "view"), Resource: rs,
+						Context: ir.Rec(ir.F("groups", ir.Set(g, ir.Ent("T0", "nobody"))), ir.F("rec", ir.Rec(ir.F("g", g), ir.F("n", ir.Long(1)))))}
+					count++
+					run(c, "membership", fail)
+				}
+			}
+		}
+	}
+	ev.R.Space("membership operators over context values holding a variable x effect x when/unless x variable patterns of principal/resource/member", count)
 }
 
 // TestErrorPaths: unbound variable, unused variable, empty value list, nil parts.
